@@ -33,7 +33,11 @@ type c17Case struct {
 
 func (c *c17Case) Key() string { return core.KeyOf(c) }
 
-var c17Ops = []string{"pushnil", "pushA", "pushB", "pop", "setA", "setB", "setF", "setg", "copy", "swap"}
+var c17Ops = []string{"pushnil", "pushA", "pushB", "pop", "setA", "setB", "setF", "setg", "copy", "swap", "setAnil", "pushgnil"}
+
+// c17Nil models a binding whose value is nil: the name is bound (it shadows outer bindings
+// and struct fields), its value is nothing.
+const c17Nil = "\x00nil"
 var c17Names = []string{"a", "b", "F", "g", "zz"}
 
 // reference model
@@ -118,23 +122,25 @@ func c17Expect(m *c17Model) string {
 	for _, n := range c17Names {
 		v, ok := m.lookup(n)
 		var lv any
-		if ok {
+		if ok && v != c17Nil {
 			lv = v
 		}
-		gs := ""
-		if ok {
+		gs, gok := "", ok
+		if ok && v != c17Nil {
 			gs = v
+		} else {
+			gok = false // GetString of a nil value reports no string
 		}
 		ev, eok := flat[n]
 		var evv any
-		if eok {
+		if eok && ev != c17Nil {
 			evv = ev
 		}
 		if n == "G" {
 			// the Go name of a JSON-tagged field is reachable by Lookup but, by construction,
 			// not a key of the environment (recorded finding of C08); not part of c17Names
 		}
-		parts = append(parts, fmt.Sprintf("%s:L=%v,%v R=%v,%v S=%v,%v E=%v,%v", n, lv, ok, lv, ok, gs, ok, evv, eok))
+		parts = append(parts, fmt.Sprintf("%s:L=%v,%v R=%v,%v S=%v,%v E=%v,%v", n, lv, ok, lv, ok, gs, gok, evv, eok))
 	}
 	return strings.Join(parts, " | ")
 }
@@ -183,6 +189,12 @@ func (c *c17Case) runHistory(ctx *core.Ctx) {
 			case "setg":
 				st.Set("g", val)
 				model.scopes[len(model.scopes)-1]["g"] = val
+			case "setAnil":
+				st.Set("a", nil)
+				model.scopes[len(model.scopes)-1]["a"] = c17Nil
+			case "pushgnil":
+				st.Push(map[string]any{"g": nil, "F": nil})
+				model.scopes = append(model.scopes, map[string]string{"g": c17Nil, "F": c17Nil})
 			case "copy":
 				if other != nil {
 					return // one copy per history
@@ -470,7 +482,7 @@ func init() {
 	core.Register(&core.Check{
 		ID:    "C17",
 		Level: "model_checking",
-		Rule: "history part: explicit-state search over all sequences of {Push(nil), Push({a}), Push({b,g}), Pop, Set a/b/F/g, Copy, swap active stack} up to the bound, for root data nil / map / struct / *struct, replayed on a fresh Stack with a deterministic LIFO pool; after every operation Lookup, Resolve, GetString and EnvMap of 5 names (incl. a struct field name and a JSON tag) are compared with a list-of-maps reference model and the inactive copy must be unchanged. " +
+		Rule: "history part: explicit-state search over all sequences of {Push(nil), Push({a}), Push({b,g}), Pop, Set a/b/F/g, Set(a, nil), Push({g: nil, F: nil}), Copy, swap active stack} up to the bound, for root data nil / map / struct / *struct, replayed on a fresh Stack with a deterministic LIFO pool; after every operation Lookup, Resolve, GetString and EnvMap of 5 names (incl. a struct field name and a JSON tag) are compared with a list-of-maps reference model and the inactive copy must be unchanged. " +
 			"path part: every path of <=3 steps over 9 step names in 3 syntaxes into every nested value of depth <=3 over 11 container/leaf kinds, against ordinary Go indexing by reflection. non-trivial = all",
 		Bounds:      map[string]string{"quick": "histories of <=5 operations; paths of <=3 steps into values nested <=3 deep", "thorough": "histories of <=7 operations; same paths"},
 		Assumptions: []string{"Pop without a matching Push is unconstrained", "a present key whose value is nil and maps with non-string keys are unconstrained", "the Go name of a JSON-tagged root field is not queried in the history part (recorded finding of C08)"},
